@@ -270,6 +270,55 @@ def canonical_script(raw):
     return rec(0)
 
 
+def complete_script(raw):
+    """does the push structure of raw end exactly at its end (minimal or not)?  SB/bool; tiny lengths only"""
+    n = len(raw)
+
+    def rec(i):
+        if i == n:
+            return True
+        if i > n:
+            return False
+        b = raw[i]
+        alts = [s_and(s_or(b == 0, b >= 79), rec(i + 1))]
+        for k in range(1, n - i):
+            alts.append(s_and(b == k, rec(i + 1 + k)))
+        for op, w in ((76, 1), (77, 2), (78, 4)):
+            if i + w < n + 0 and i + 1 + w <= n:
+                hi_zero = s_and(*[raw[i + 1 + j] == 0 for j in range(1, w)]) if w > 1 else True
+                for k in range(0, n - i - w):
+                    alts.append(s_and(b == op, raw[i + 1] == k, hi_zero, rec(i + 1 + w + k)))
+        return s_or(*alts)
+    return rec(0)
+
+
+def _script_incomplete_path(n):
+    """a script whose last push promises more bytes than the script holds (real coinbase scripts do this) is kept verbatim"""
+    sc = loader.load("script")
+    raw = SBytes.sym("r", n)
+    assume(s_not(complete_script(raw)))
+    wit = lambda env: {"raw": bytes_env(env, "r", n).hex()}  # noqa
+    try:
+        p = sc.Script.parse(shims.BytesIOShim(bytes([n]) + raw))
+        out = p.raw_serialize()
+    except core.Unsupported:
+        raise
+    except Exception as ex:
+        check(True, "refused")
+        return "refused:" + type(ex).__name__
+    check((len(out) == n) and (out == raw), "serialize(parse(raw)) != raw for a script whose last push overruns its end", witness=wit)
+    return "kept"
+
+
+def ob_script_incomplete(maxn):
+    runs = [sym_run(lambda: _script_incomplete_path(n), timeout_ms=60000) for n in range(1, maxn + 1)]
+    m = merge_runs(runs)
+    m["sample"] = {"raw": f"every byte string of length 1..{maxn} whose push structure overruns its end"}
+    if "'kept'" not in m["classes"]:
+        m["inconclusive"].append("reachability twin: no script kept verbatim")
+    return m
+
+
 def _script_raw_path(n):
     sc = loader.load("script")
     raw = SBytes.sym("r", n) if n else b""
@@ -754,6 +803,7 @@ def replay_fetch(w):
 def obligations(tier):
     q = tier == "quick"
     obs = [Ob("O1-varint", ob_varint, replay="varint")]
+    obs.append(Ob("O2-script-incomplete", ob_script_incomplete, {"maxn": 3 if q else 5}, replay="script_raw", budget_s=900))
     lens = [0, 1, 2, 74, 75, 76, 77, 255, 256, 519, 520, 521] if q else list(range(0, 522))
     chunk = 4 if q else 35
     for i in range(0, len(lens), chunk):
